@@ -401,15 +401,19 @@ func (it *Interp) setupIntrinsics() {
 		name := cstr(it, a[0])
 		n := a[1].(*Term)
 		v := it.newInput(name, it.intSort(64), "int")
-		it.addPC(it.tb.Cmp(token.GEQ, v, it.mkInt(0), true))
-		it.addPC(it.tb.Cmp(token.LSS, v, n, true))
 		if n.IsConst() {
 			// enumerate the choices directly (no solver needed): every value in [0,n) is feasible
+			if n.SInt64() <= 0 {
+				panic(pathEnd{"killed", "choose from an empty set"})
+			}
 			k := it.choose(int(n.SInt64()))
 			it.extendModel(v, it.mkInt(k))
 			it.addPC(it.tb.Eq(v, it.mkInt(k)))
 			return it.mkInt(k)
 		}
+		it.extendModel(v, it.mkInt(0))
+		it.addPC(it.tb.Cmp(token.GEQ, v, it.mkInt(0), true))
+		it.addPC(it.tb.Cmp(token.LSS, v, n, true))
 		return it.mkInt(int(it.concretize(v)))
 	}
 	T[zz("Concrete")] = func(it *Interp, fn *ssa.Function, a []Value) Value {
@@ -543,6 +547,17 @@ func (it *Interp) setupIntrinsics() {
 		}
 		return ns
 	}
+	T[zz("Or")] = func(it *Interp, fn *ssa.Function, a []Value) Value { return it.tb.Or(a[0].(*Term), a[1].(*Term)) }
+	T[zz("And")] = func(it *Interp, fn *ssa.Function, a []Value) Value { return it.tb.And(a[0].(*Term), a[1].(*Term)) }
+	T[zz("Implies")] = func(it *Interp, fn *ssa.Function, a []Value) Value {
+		return it.tb.Implies(a[0].(*Term), a[1].(*Term))
+	}
+	iteFn := func(it *Interp, fn *ssa.Function, a []Value) Value {
+		return it.tb.Ite(a[0].(*Term), a[1].(*Term), a[2].(*Term))
+	}
+	T[zz("IteInt")] = iteFn
+	T[zz("IteF")] = iteFn
+	T[zz("IteU64")] = iteFn
 	T[zz("Note")] = func(it *Interp, fn *ssa.Function, a []Value) Value {
 		it.pathNotes = append(it.pathNotes, cstr(it, a[0]))
 		return nil
@@ -804,8 +819,12 @@ func (it *Interp) setupIntrinsics() {
 	T["fmt.Fprintf"] = func(it *Interp, fn *ssa.Function, a []Value) Value {
 		return it.writeString(a[0], it.sprintf(cstr(it, a[1]), a[2]))
 	}
-	T["fmt.Fprint"] = func(it *Interp, fn *ssa.Function, a []Value) Value { return it.writeString(a[0], it.sprint(a[1], false)) }
-	T["fmt.Fprintln"] = func(it *Interp, fn *ssa.Function, a []Value) Value { return it.writeString(a[0], it.sprint(a[1], true)) }
+	T["fmt.Fprint"] = func(it *Interp, fn *ssa.Function, a []Value) Value {
+		return it.writeString(a[0], it.sprint(a[1], false))
+	}
+	T["fmt.Fprintln"] = func(it *Interp, fn *ssa.Function, a []Value) Value {
+		return it.writeString(a[0], it.sprint(a[1], true))
+	}
 	noop2 := func(it *Interp, fn *ssa.Function, a []Value) Value {
 		return Tuple{it.mkInt(0), Iface{}}
 	}
@@ -1025,7 +1044,9 @@ func (it *Interp) setupIntrinsics() {
 	T["strings.TrimLeft"] = s2s(strings.TrimLeft)
 	T["strings.TrimRight"] = s2s(strings.TrimRight)
 	s2i := func(f func(string, string) int) intrinsic {
-		return func(it *Interp, fn *ssa.Function, a []Value) Value { return it.mkInt(f(cstr(it, a[0]), cstr(it, a[1]))) }
+		return func(it *Interp, fn *ssa.Function, a []Value) Value {
+			return it.mkInt(f(cstr(it, a[0]), cstr(it, a[1])))
+		}
 	}
 	T["strings.Index"] = s2i(strings.Index)
 	T["strings.LastIndex"] = s2i(strings.LastIndex)
